@@ -4,7 +4,7 @@
    two (possibly equal) earlier ones — any element order.  "The input is not modified" is checked by
    the harness oracle (slice aliasing is not modelled). *)
 From Coq Require Import String.
-From Coq Require Import List ZArith.
+From Coq Require Import List ZArith Arith.
 From AV Require Import model.Proto model.Chain model.Runs proofs.OptChainAux proofs.RunsProofs.
 Import ListNotations.
 Open Scope Z_scope.
@@ -16,15 +16,9 @@ Theorem C11_runs_chain_valid : forall lc, is_chain lc -> (forall l, In l lc -> l
 Proof. exact runs_chain_valid. Qed.
 Print Assumptions C11_runs_chain_valid.
 
-(* refusal: an operation with an operand that does not fit 64 bits gives the error, not a chain *)
-Theorem C11_runs_chain_refuses_operand : forall lc p, is_chain lc -> program lc = Ok p ->
-  Exists (fun o => 2 ^ 64 <= nz lc (fst o) \/ 2 ^ 64 <= nz lc (snd o)) p ->
-  runs_chain lc = Err ($"toolarge").
-Proof. exact runs_chain_refuses_op. Qed.
-Print Assumptions C11_runs_chain_refuses_operand.
-
-(* hence any length of 2^65 or more is refused *)
-Theorem C11_runs_chain_refuses : forall lc, is_chain lc -> (exists l, In l lc /\ 2 ^ 65 <= l) ->
+(* every length that does not fit a 64-bit machine word is refused with the error, none is
+   mis-computed (the guard is on the sum lc[k+1] since fix 5bad32e) *)
+Theorem C11_runs_chain_refuses : forall lc, is_chain lc -> (exists l, In l lc /\ 2 ^ 64 <= l) ->
   runs_chain lc = Err ($"toolarge").
 Proof. exact runs_chain_refuses. Qed.
 Print Assumptions C11_runs_chain_refuses.
@@ -35,21 +29,11 @@ Theorem C11_runs_chain_no_panic : forall lc, is_chain lc ->
 Proof. exact runs_chain_cases. Qed.
 Print Assumptions C11_runs_chain_no_panic.
 
-(* The literal reading of the last sentence of the property — EVERY length that does not fit a
-   machine word is refused — does not hold for the model: the guard tests the two operands, not their
-   sum, and uint(la+lb) wraps.  For 1,2,4,...,2^63,2^64 the result is Ok c with 2^0 - 1 = 0 in c.
-   Not reachable by running the Go code: the inner loop would need 2^63 iterations first. *)
-Definition C11_refusal_full : Prop :=
-  forall lc, is_chain lc -> (exists l, In l lc /\ 2 ^ 64 <= l) -> runs_chain lc = Err ($"toolarge").
-Theorem C11_refusal_window_refuted : ~ C11_refusal_full.
-Proof. exact refusal_window_refuted. Qed.
-Print Assumptions C11_refusal_window_refuted.
-
-Theorem C11_overflow_witness :
-  is_chain pow_chain /\ (forall l, In l pow_chain -> l <= 2 ^ 64) /\
-  exists c, runs_chain pow_chain = Ok c /\ In 0 c.
-Proof. exact runs_chain_overflow_witness. Qed.
-Print Assumptions C11_overflow_witness.
+(* together: a chain is returned exactly when every length fits a machine word *)
+Theorem C11_runs_chain_ok_iff : forall lc, is_chain lc ->
+  ((exists c, runs_chain lc = Ok c) <-> forall l, In l lc -> l < 2 ^ 64).
+Proof. exact runs_chain_ok_iff. Qed.
+Print Assumptions C11_runs_chain_ok_iff.
 
 (* non-vacuity: an unsorted chain of lengths meets the hypotheses; the run of the model on it *)
 Definition ex_lengths : list Z := [1; 2; 4; 3; 7; 5].
@@ -61,3 +45,11 @@ Qed.
 Example C11_nonvacuous_run :
   runs_chain ex_lengths = Ok [1; 2; 3; 6; 12; 15; 7; 30; 60; 120; 127; 31].
 Proof. vm_compute. reflexivity. Qed.
+
+(* the refusal hypothesis is satisfiable: 1,2,4,...,2^64 is a valid chain containing 2^64 *)
+Definition ex_too_large : list Z := map (fun k => 2 ^ Z.of_nat k) (seq 0 65).
+Example C11_nonvacuous_refusal : is_chain ex_too_large /\ In (2 ^ 64) ex_too_large.
+Proof.
+  split; [eapply program_sound; vm_compute; reflexivity|].
+  unfold ex_too_large. apply in_map_iff. exists 64%nat. split; [reflexivity|apply in_seq; cbn; split; [apply Nat.le_0_l|apply Nat.leb_le; reflexivity]].
+Qed.
